@@ -23,9 +23,7 @@ namespace avel {
         //=================================================
 
         explicit Denominator(Denom16u denom):
-            m(denom.m),
-            sh2(denom.sh2),
-            d(denom.d) {}
+            Denominator(vec8x16u{denom.value()}) {}
 
         explicit Denominator(vec8x16u d):
             Denominator(d, vec8x16u{16} - countl_zero(d - vec8x16u{1})) {}
